@@ -1088,21 +1088,29 @@ class MainProvider(ResolverMixin, BaseProvider):
         classnames.append(ClassName)
 
         # Delete all instances in this class and subclasses and delete
-        # this class and subclasses
-        for clname in classnames:
-            sub_clns = self._get_subclass_list_for_enums(ClassName, namespace,
-                                                         class_store)
+        # this class and subclasses. If a provider rejects the deletion of
+        # one of the instances, the CIM repository is restored so that the
+        # failed operation leaves it unchanged.
+        snapshot = self.cimrepository.snapshot()
+        try:
+            for clname in classnames:
+                sub_clns = self._get_subclass_list_for_enums(
+                    ClassName, namespace, class_store)
 
-            inst_paths = [inst.path for inst in instance_store.iter_values()
-                          if inst.path.classname in sub_clns]
+                inst_paths = [inst.path
+                              for inst in instance_store.iter_values()
+                              if inst.path.classname in sub_clns]
 
-            # Routes instance delete calls through the ProviderDispatcher to
-            # assure that providers get called rather than calling the
-            # CIM repository directly.
-            for ipath in inst_paths:
-                self.providerdispatcher.DeleteInstance(ipath)
+                # Routes instance delete calls through the ProviderDispatcher
+                # to assure that providers get called rather than calling the
+                # CIM repository directly.
+                for ipath in inst_paths:
+                    self.providerdispatcher.DeleteInstance(ipath)
 
-            class_store.delete(clname)
+                class_store.delete(clname)
+        except Exception:
+            self.cimrepository.restore(snapshot)
+            raise
 
     ##########################################################
     #
